@@ -4,6 +4,7 @@ mod c32;
 mod c44;
 mod corpus;
 mod obs;
+mod rewrite;
 
 fn main() {
     let ctx = mc_core::Ctx::from_args();
